@@ -21,6 +21,15 @@ def pieces_setup(st, mode, size, values, xs, ys_list):
     return n1, n2, arrs
 
 
+def fresh_result(st, ret):
+    """C09: the result never aliases an operand: every returned array is newly allocated (or a value-type expression)"""
+    ok = True
+    for a in ret:
+        if isinstance(a, ArrV):
+            ok = ok and bool(st.heap[a.buf].local)
+    return ok
+
+
 class AddPwc(Contract):
     rel = 'pyspike/cython/python_backend.py'
     func = 'add_piece_wise_const_python'
@@ -124,6 +133,7 @@ class AddPwc(Contract):
                 cmp('<=', c.X1[a], X[k]), cmp('<=', X[k + 1], c.X1[a + 1]),
                 cmp('<=', c.X2[b], X[k]), cmp('<=', X[k + 1], c.X2[b + 1])), name='b'), name='a')
         out.append(('val', forall(0, n, val)))
+        out.append(('fresh_arrays', fresh_result(st, ret)))
         # every result breakpoint is a breakpoint of an operand
         out.append(('member', forall(0, arith('+', n, 1), lambda k: bor(exists(0, arith('+', c.n1, 1), lambda a: cmp('==', X[k], c.X1[a]), name='a'),
                                                                         exists(0, arith('+', c.n2, 1), lambda b: cmp('==', X[k], c.X2[b]), name='b')))))
@@ -168,7 +178,7 @@ class AddDiscrete(Contract):
         A = c.A
         n = X.n
         out = [('shape', band(cmp('==', Y.n, n), cmp('==', MP.n, n), cmp('>=', n, 2), cmp('==', X[0], A['x1'][0]),
-                              cmp('==', X[n - 1], A['x1'][c.n1 - 1])))]
+                              cmp('==', X[n - 1], A['x1'][c.n1 - 1]))), ('fresh_arrays', fresh_result(st, ret))]
         if not isinstance(n, int) or n < 2:
             return out
         ev = range(1, n - 1)
@@ -230,6 +240,7 @@ class AddPwl(Contract):
         n = YA.n
         out = [('shape', band(cmp('==', X.n, n + 1), cmp('==', YB.n, n), cmp('>=', n, 1), cmp('==', X[0], A['x1'][0]), cmp('==', X[n], A['x1'][c.n1]))),
                ('incr', band(*[cmp('<', X[k], X[k + 1]) for k in range(n)])),
+               ('fresh_arrays', fresh_result(st, ret)),
                ('finite', band(*[band(YA.fin(k), YB.fin(k)) for k in range(n)])),
                ('member', band(*[bor(*([cmp('==', X[k], A['x1'][a]) for a in range(c.n1 + 1)] + [cmp('==', X[k], A['x2'][b]) for b in range(c.n2 + 1)]))
                                  for k in range(n + 1)]))]
